@@ -52,6 +52,9 @@ func genOp(c *Ctx, massive bool) Op {
 		if op.Branch != nil && c.Chance(1, 5) {
 			op.BranchOnly = []string{"last", "mid"}[c.Draw(2)]
 		}
+		if c.Chance(1, 6) {
+			op.DryRun = true // accepted by the walks: names are validated before the first callback
+		}
 	case 6:
 		op.Kind = "mkdir"
 		op.Exts = extSets[c.Draw(len(extSets))]
@@ -73,6 +76,9 @@ func genOp(c *Ctx, massive bool) Op {
 	}
 	if c.Chance(1, 10) {
 		op.Decoys = true
+	}
+	if c.Chance(1, 10) {
+		op.Stray = true
 	}
 	return op
 }
@@ -106,6 +112,7 @@ type massiveScenario struct {
 	invalidName bool
 	bigRoots bool
 	missingTarget bool
+	targetName    string
 }
 
 func (s *massiveScenario) describe(c *Ctx) {
@@ -291,6 +298,9 @@ func genMassiveScenario(c *Ctx, arm string, nMalformMax int) *massiveScenario {
 	if s.op.Kind == "mkdir" && c.Chance(1, 4) {
 		s.missingTarget = true
 	}
+	if needsFS(s.op) {
+		s.targetName = genTargetDirName(c)
+	}
 	return s
 }
 
@@ -300,7 +310,11 @@ func (s *massiveScenario) prepareTarget(c *Ctx, salt int) *DiskPlan {
 		return nil
 	}
 	j := newJail()
-	target := filepath.Join(j, "target")
+	tn := s.targetName
+	if tn == "" {
+		tn = "target"
+	}
+	target := filepath.Join(j, tn)
 	if s.op.Kind == "mkdir" && len(s.preexist) == 0 && s.missingTarget {
 		target = filepath.Join(j, "not", "yet", "there") // created by the call itself
 	} else {
@@ -364,6 +378,7 @@ func readerPlanFor(c *Ctx) ReaderPlan {
 	}
 	rp.ChunkSeed = uint64(c.Draw(1 << 16))
 	rp.WithLen = rp.ChunkSeed%4 == 0
+	rp.Seekable = rp.ChunkSeed%8 == 1
 	return rp
 }
 
